@@ -450,8 +450,8 @@ def _end_weight(draw, regime):
 
 
 @st.composite
-def automaton(draw, regime="QQ", max_states=4, max_arcs=8, alphabet=("a", "b"), eps=True, acyclic=False, pool=None, boost=None, labels=None, signed=False):
-    n = draw(st.integers(1, max_states))
+def automaton(draw, regime="QQ", max_states=4, max_arcs=8, alphabet=("a", "b"), eps=True, acyclic=False, pool=None, boost=None, labels=None, signed=False, min_states=1):
+    n = draw(st.integers(min(min_states, max_states), max_states))
     pool = pool or draw(st.sampled_from(["int", "int", "str", "tuple"]))
     names = STATE_POOLS[pool][:n] if isinstance(pool, str) else list(pool)[:n]
     n = len(names)
